@@ -202,6 +202,244 @@ func runSpawns(repo string) (string, error) {
 	for _, p := range b.pipes {
 		g += len(p.gs)
 	}
-	fmt.Fprintf(&s, "def goroutinesEmitted : Nat := %d\n\nend Dos.Gen.PipeSpawns\n", g)
+	fmt.Fprintf(&s, "def goroutinesEmitted : Nat := %d\n\n", g)
+	loops, err := scanLoops(b.ld)
+	if err != nil {
+		return "", err
+	}
+	s.WriteString("/-- (package directory, enclosing function, ordinal of the loop in it, bound, header, class) -/\nabbrev LoopKey := String × String × Nat × String × String × String\n\n")
+	s.WriteString("/-- every `for` / `range` statement of the packages the pipelines live in -/\ndef loops : List LoopKey := [")
+	for i, l := range loops {
+		if i > 0 {
+			s.WriteString(",")
+		}
+		fmt.Fprintf(&s, "\n  %s /- %s -/", l.lean(), l.pos)
+	}
+	s.WriteString("]\n\n")
+	ext, err := scanExternal(b.ld)
+	if err != nil {
+		return "", err
+	}
+	s.WriteString("/-- the external calls the translator treats as returning: (call, callee, what bounds it — `none` if nothing) -/\ndef externalCalls : List (String × String × String) := [")
+	for i, e := range ext {
+		if i > 0 {
+			s.WriteString(",")
+		}
+		fmt.Fprintf(&s, "\n  (%s, %s, %s)", leanStr(e[0]), leanStr(e[1]), leanStr(e[2]))
+	}
+	s.WriteString("]\n\nend Dos.Gen.PipeSpawns\n")
 	return s.String(), nil
+}
+
+// ---- loop inventory --------------------------------------------------------------------------
+//
+// Every `for` / `range` statement of the packages the pipelines live in, with a position-independent
+// key and a syntactic classification of HOW IT CAN END:
+//
+//	bound: "range" (over a slice / map / channel: ends with the data or the channel),
+//	       "count" (three-clause loop `for i := a; i < b; i++`), "cond" (`for cond {`), "forever" (`for {`)
+//	class: "ctx-select" — the body has a `select` with a `<-….Done()` case (the loop can leave on the context),
+//	       "chan-op"    — the body has another channel operation (select / send / receive),
+//	       "opaque"     — neither: the loop ends only through its own condition, `break` or `return`.
+//
+// The translator turns a loop without channel operations into nothing at all (an internal choice);
+// that such a loop ends is the assumption `Fair.data`.  The theorem `opaque_loops_are_pinned`
+// (Props/C14Spawns.lean) pins the loops that rest on it: a NEW retry loop, or an existing loop whose
+// `select` on the context is removed, is not in the list and breaks the theorem.
+
+var loopDirs = []string{"dosnode", "share/dkg/pedersen", "utils", "p2p", "onchain"}
+
+type loopFact struct {
+	dir, fn       string
+	k             int
+	bound, header string
+	class         string
+	sleeps        bool
+	pos           string
+}
+
+func isDoneRecv(e ast.Expr) bool {
+	u, ok := e.(*ast.UnaryExpr)
+	if !ok || u.Op.String() != "<-" {
+		return false
+	}
+	c, ok := u.X.(*ast.CallExpr)
+	if !ok {
+		return false
+	}
+	se, ok := c.Fun.(*ast.SelectorExpr)
+	return ok && se.Sel.Name == "Done"
+}
+
+func classifyBody(body *ast.BlockStmt) (class string, sleeps bool) {
+	ctxSel, chanOp := false, false
+	ast.Inspect(body, func(n ast.Node) bool {
+		switch x := n.(type) {
+		case *ast.FuncLit:
+			return false // another goroutine's / a deferred body
+		case *ast.SelectStmt:
+			chanOp = true
+			for _, cl := range x.Body.List {
+				cc, ok := cl.(*ast.CommClause)
+				if !ok || cc.Comm == nil {
+					continue
+				}
+				switch c := cc.Comm.(type) {
+				case *ast.ExprStmt:
+					if isDoneRecv(c.X) {
+						ctxSel = true
+					}
+				case *ast.AssignStmt:
+					if len(c.Rhs) == 1 && isDoneRecv(c.Rhs[0]) {
+						ctxSel = true
+					}
+				}
+			}
+		case *ast.SendStmt:
+			chanOp = true
+		case *ast.UnaryExpr:
+			if x.Op.String() == "<-" {
+				chanOp = true
+			}
+		case *ast.CallExpr:
+			if se, ok := x.Fun.(*ast.SelectorExpr); ok && se.Sel.Name == "Sleep" {
+				sleeps = true
+			}
+		}
+		return true
+	})
+	switch {
+	case ctxSel:
+		return "ctx-select", sleeps
+	case chanOp:
+		return "chan-op", sleeps
+	}
+	return "opaque", sleeps
+}
+
+func scanLoops(ld *loader) ([]loopFact, error) {
+	var out []loopFact
+	for _, dir := range loopDirs {
+		p, err := ld.load(dir)
+		if err != nil {
+			return nil, err
+		}
+		for _, f := range p.files {
+			for _, d := range f.Decls {
+				var root ast.Node
+				name := ""
+				switch x := d.(type) {
+				case *ast.FuncDecl:
+					if x.Body == nil {
+						continue
+					}
+					root, name = x.Body, funcKey(x)
+				case *ast.GenDecl:
+					root = x
+					for _, sp := range x.Specs {
+						if vs, ok := sp.(*ast.ValueSpec); ok && len(vs.Names) > 0 && name == "" {
+							name = "var " + vs.Names[0].Name
+						}
+					}
+				default:
+					continue
+				}
+				k := 0
+				ast.Inspect(root, func(n ast.Node) bool {
+					switch x := n.(type) {
+					case *ast.ForStmt:
+						lf := loopFact{dir: dir, fn: name, k: k, pos: p.pos(x)}
+						switch {
+						case x.Cond == nil:
+							lf.bound, lf.header = "forever", "for"
+						case x.Init != nil || x.Post != nil:
+							lf.bound, lf.header = "count", "for "+shortN(p.fset, x.Cond, 80)
+						default:
+							lf.bound, lf.header = "cond", "for "+shortN(p.fset, x.Cond, 80)
+						}
+						lf.class, lf.sleeps = classifyBody(x.Body)
+						out = append(out, lf)
+						k++
+					case *ast.RangeStmt:
+						lf := loopFact{dir: dir, fn: name, k: k, pos: p.pos(x), bound: "range", header: "range " + shortN(p.fset, x.X, 80)}
+						lf.class, lf.sleeps = classifyBody(x.Body)
+						out = append(out, lf)
+						k++
+					}
+					return true
+				})
+			}
+		}
+	}
+	return out, nil
+}
+
+func (l loopFact) lean() string {
+	return fmt.Sprintf("(%s, %s, %d, %s, %s, %s)", leanStr(l.dir), leanStr(l.fn), l.k, leanStr(l.bound), leanStr(l.header), leanStr(l.class))
+}
+
+// ---- external calls and what bounds them -----------------------------------------------------
+//
+// The translator treats p.Request / p.Reply, the chain calls of the stages and the HTTP fetch as opaque
+// calls that return.  What makes them return is in the callee: a client timeout, a context with a
+// timeout derived from the caller's.  These are extracted as facts (callee, mechanism, "none" when it
+// is absent) so that removing one breaks `external_calls_are_bounded`.
+
+type extFact struct{ call, dir, recv, fn, mech string }
+
+var extCalls = []extFact{
+	{"dataFetch (HTTP fetch of the query URL)", "dosnode", "", "dataFetch", "client-timeout"},
+	{"p2p Request (dispatchSign, sendToMembers, genDealsAndSend)", "p2p", "server", "Request", "with-timeout"},
+	{"p2p Reply (pdkg.Loop)", "p2p", "server", "Reply", "with-timeout"},
+	{"chain DataReturn (reportQueryResult)", "onchain", "ethAdaptor", "DataReturn", "with-timeout"},
+	{"chain UpdateRandomness (reportQueryResult)", "onchain", "ethAdaptor", "UpdateRandomness", "with-timeout"},
+	{"chain RegisterGroupPubKey (registerGroup)", "onchain", "ethAdaptor", "RegisterGroupPubKey", "with-timeout"},
+}
+
+func scanExternal(ld *loader) ([][3]string, error) {
+	var out [][3]string
+	for _, e := range extCalls {
+		p, err := ld.load(e.dir)
+		if err != nil {
+			return nil, err
+		}
+		var fd *ast.FuncDecl
+		if e.recv == "" {
+			fd = p.funcs[e.fn]
+		} else {
+			fd = p.methods[e.recv][e.fn]
+		}
+		bound := "none"
+		if fd == nil {
+			bound = "function not found"
+		} else {
+			ast.Inspect(fd.Body, func(n ast.Node) bool {
+				switch x := n.(type) {
+				case *ast.CompositeLit:
+					if e.mech != "client-timeout" {
+						return true
+					}
+					if se, ok := x.Type.(*ast.SelectorExpr); ok && se.Sel.Name == "Client" {
+						for _, el := range x.Elts {
+							if kv, ok := el.(*ast.KeyValueExpr); ok {
+								if id, ok := kv.Key.(*ast.Ident); ok && id.Name == "Timeout" && bound == "none" {
+									bound = "http.Client{Timeout: " + shortN(p.fset, kv.Value, 60) + "}"
+								}
+							}
+						}
+					}
+				case *ast.CallExpr:
+					if e.mech != "with-timeout" {
+						return true
+					}
+					if se, ok := x.Fun.(*ast.SelectorExpr); ok && (se.Sel.Name == "WithTimeout" || se.Sel.Name == "WithDeadline") && bound == "none" {
+						bound = shortN(p.fset, x, 80)
+					}
+				}
+				return true
+			})
+		}
+		out = append(out, [3]string{e.call, e.dir + "." + e.fn, bound})
+	}
+	return out, nil
 }
